@@ -44,6 +44,7 @@ type Sort struct {
 	Bits   int        // for KInt: 0 = unbounded (int), else width; Signed
 	Signed bool
 	Tuple  []*Sort
+	IsMap  bool // ghost map (KSet with arbitrary element sort)
 }
 
 func (s *Sort) String() string { return s.Name }
@@ -352,10 +353,15 @@ func (u *Universe) structSort(t types.Type, st *types.Struct) *Sort {
 	s := &Sort{Kind: KStruct, Name: n, GoT: t}
 	u.sorts[types.TypeString(t, nil)] = s
 	var fl []string
+	seenSel := map[string]bool{}
 	for i := 0; i < st.NumFields(); i++ {
 		f := st.Field(i)
 		fs := u.sortOf(f.Type())
 		sel := n + "_" + smtName(f.Name())
+		if f.Name() == "_" || seenSel[sel] {
+			sel = fmt.Sprintf("%s_f%d", sel, i)
+		}
+		seenSel[sel] = true
 		s.Fields = append(s.Fields, Field{Name: f.Name(), Sort: fs, Sel: sel})
 		fl = append(fl, fmt.Sprintf("(%s %s)", sel, fs.Name))
 	}
@@ -400,9 +406,9 @@ func (u *Universe) zero(s *Sort) string {
 		}
 		return "(mk_" + s.Name + " " + strings.Join(fs, " ") + ")"
 	case KSlice:
-		return fmt.Sprintf("(mk_%s ((as const (Array Int %s)) %s) 0)", s.Name, s.Elem.Name, u.zero(s.Elem))
+		return fmt.Sprintf("(mk_%s %s 0)", s.Name, u.zeroArray(s.Elem))
 	case KArr:
-		return fmt.Sprintf("((as const %s) %s)", s.Name, u.zero(s.Elem))
+		return u.zeroArray(s.Elem)
 	case KSet:
 		return fmt.Sprintf("((as const %s) false)", s.Name)
 	case KOpaque:
@@ -463,4 +469,21 @@ func (u *Universe) axiomPart() string {
 		fmt.Fprintf(&b, "(assert %s)\n", a)
 	}
 	return b.String()
+}
+
+
+// zeroArray: an (Array Int X) whose every element is the zero value of X. `as const` needs a value as
+// default (cvc5 rejects declared constants), so for uninterpreted element sorts a declared array with an axiom is used.
+func (u *Universe) zeroArray(el *Sort) string {
+	switch el.Kind {
+	case KInt, KRef, KMap, KFunc, KBool:
+		return fmt.Sprintf("((as const (Array Int %s)) %s)", el.Name, u.zero(el))
+	}
+	n := "zarr_" + smtName(el.Name)
+	if !u.declared[n] {
+		u.declared[n] = true
+		u.decls = append(u.decls, fmt.Sprintf("(declare-const %s (Array Int %s))", n, el.Name))
+		u.axioms = append(u.axioms, fmt.Sprintf("(forall ((i Int)) (! (= (select %s i) %s) :pattern ((select %s i))))", n, u.zero(el), n))
+	}
+	return n
 }
